@@ -411,6 +411,8 @@ theorem tie_src_core_DrandDaemon_LoadBeaconFromStore : Gen.ScriptsC13.core_Drand
   "  if err := dd.dkg.Migrate(beaconID, g, share); err != nil {",
   "   return nil, err",
   "  }",
+  " } else if err := dd.reconcileKeyFiles(beaconID, bp, store); err != nil {",
+  "  return nil, err",
   " }",
   " if err := bp.Load(ctx); err != nil {",
   "  return nil, err",
@@ -420,6 +422,46 @@ theorem tie_src_core_DrandDaemon_LoadBeaconFromStore : Gen.ScriptsC13.core_Drand
   " if err != nil {",
   " }",
   " return bp, err",
+  "}"
+] := rfl
+
+theorem tie_src_core_DrandDaemon_reconcileKeyFiles : Gen.ScriptsC13.core_DrandDaemon_reconcileKeyFiles = [
+  "func (dd *DrandDaemon) reconcileKeyFiles(beaconID string, bp *BeaconProcess, store key.Store) error {",
+  " done, err := dd.dkg.LastCompleted(beaconID)",
+  " if err != nil || done == nil {",
+  "  return err",
+  " }",
+  " distKey := done.FinalGroup.PublicKey",
+  " group, _ := store.LoadGroup()",
+  " share, shareErr := store.LoadShare()",
+  " groupInSync := group != nil && group.PublicKey != nil && group.PublicKey.Equal(distKey)",
+  " shareInSync := shareErr == nil && share.Public().Equal(distKey)",
+  " if groupInSync && shareInSync {",
+  "  return nil",
+  " }",
+  " if group != nil && group.TransitionTime > done.FinalGroup.TransitionTime {",
+  "  return nil",
+  " }",
+  " if done.FinalGroup.Find(bp.priv.Public) == nil {",
+  "  if group == nil && shareErr != nil {",
+  "   return nil",
+  "  }",
+  "  return store.Reset()",
+  " }",
+  " if err := store.SaveGroup(done.FinalGroup); err != nil {",
+  "  return err",
+  " }",
+  " return store.SaveShare(done.KeyShare)",
+  "}"
+] := rfl
+
+theorem tie_src_dkg_Process_LastCompleted : Gen.ScriptsC13.dkg_Process_LastCompleted = [
+  "func (d *Process) LastCompleted(beaconID string) (*ExecutionOutput, error) {",
+  " finished, err := d.store.GetFinished(beaconID)",
+  " if err != nil || finished == nil || finished.FinalGroup == nil || finished.FinalGroup.PublicKey == nil || finished.KeyShare == nil {",
+  "  return nil, err",
+  " }",
+  " return &ExecutionOutput{FinalGroup: finished.FinalGroup, KeyShare: finished.KeyShare}, nil",
   "}"
 ] := rfl
 
